@@ -18,16 +18,14 @@ META = {
             "(5 element types incl. string and move-only, 6 hash functions incl. constant and checker-colliding) "
             "and compared observation by observation; the property text is checked directly on the real classes "
             "against std::map after every mutating operation.",
-    "note": "Trusted: Coq kernel, translator (size_t arithmetic as unbounded Z), ExtrOcamlBasic extraction + OCaml "
-            "driver, C++ harness.  Modelled not verified: SIMD group load = 16 consecutive control bytes, the "
-            "allocator, element construction/destruction (a destroyed slot is 'None'), ConcurrentAdder as a "
-            "plain counter (sequential view; the concurrent view is C03).  GAP: c18_refines_set is proved for "
-            "containers constructed with an explicit bucket count (any value); for a default-constructed container "
-            "the statement is refuted in Coq on the faithful model (c18_default_size_plus_16: size()+16; "
-            "c18_default_iteration_stops: 49 inserted, 32 visited) and the witnesses reproduce on the real classes "
-            "(finding F1, signatures default-ctor-size / default-ctor-iter in KNOWN_FINDINGS.txt).  After the "
-            "repair the regenerated begin_chained_next / begin_loop_next / total_size_init change, the refuted "
-            "theorems stop compiling and the invariant has to admit the placeholder head (see Properties_C18.v).",
+    "note": "Trusted: Coq kernel, translator (size_t arithmetic as unbounded Z; pointer-valued expressions of begin() "
+            "mapped to node positions), ExtrOcamlBasic extraction + OCaml driver, C++ harness.  Modelled not "
+            "verified: SIMD group load = 16 consecutive control bytes, the allocator, element construction/"
+            "destruction (a destroyed slot is 'None'), ConcurrentAdder as a plain counter (sequential view; the "
+            "concurrent view is C03).  c18_refines_set covers every initial capacity including the "
+            "default-constructed container (placeholder head); that case was refuted and reproduced on the real "
+            "classes until fix commit bf7dad8 (size()+16, iteration stopping after the first chained table) and is "
+            "now an ordinary capacity for proofs, correspondence and monitors (mutant revert_default_ctor_fix).",
 }
 
 TYPES = {0: "set<uint64>", 1: "map<uint64,uint64>", 2: "set<string>", 3: "map<uint64,unique_ptr>", 4: "map<string,string>"}
@@ -161,9 +159,10 @@ class Gen:
         return ops + ["s", "i", "sw", "s", "i"]
 
 
-WITNESSES = [   # the Coq `_refuted` witnesses, replayed on the real classes
-    "wit-size 0 0 d d e1:0 s",
-    "wit-iter 0 0 d d " + " ".join("e%d:0" % k for k in range(1, 50)) + " i",
+WITNESSES = [   # regression cases of the repaired default-constructed container (fix bf7dad8)
+    "def-size 0 0 d d e1:0 s",
+    "def-iter 0 0 d d " + " ".join("e%d:0" % k for k in range(0, 49)) + " s i ab sw s i r200 s i",
+    "def-copy 4 5 d d " + " ".join("e%d:%d" % (k, k + 1) for k in range(0, 120)) + " s i ab sw s i h0 s i c s i e7:1 s i",
 ]
 
 
@@ -227,17 +226,20 @@ def main(argv):
     validated = 0
     nontrivial = set()
     ncorr = 0
+    ndefault = 0
     for cid, line in by_id.items():
         w = line.split()
         ty, hk, ca, cb = int(w[1]), int(w[2]), w[3], w[4]
         rep = {"line": line, "type": TYPES.get(ty), "hash_kind": hk}
         il = impl_out.get(cid)
         ml = model_out.get(cid)
-        defect_at, maxchain, mobs = -1, 0, None
+        dummy_chain_at, maxchain, mobs = -1, 0, None
         if ml is not None and " # " in ml:
             mobs, info = ml.split(" # ")
             kv = dict(x.split("=") for x in info.split())
-            defect_at, maxchain = int(kv["defect_at"]), int(kv["maxchain"])
+            dummy_chain_at, maxchain = int(kv["dummy_chain_at"]), int(kv["maxchain"])
+            if dummy_chain_at >= 0:
+                ndefault += 1
             if "DIVERGES" in mobs or "!=" in mobs:
                 chk.violate("model-stuck", "the model (regenerated formulas) does not terminate / gets stuck on: %s"
                             % line[:200], dict(rep, level="model"))
@@ -265,14 +267,8 @@ def main(argv):
                 first_bad = int(parts[0].split("first_bad=")[1].split()[0])
             except (ValueError, IndexError):
                 first_bad = -1
-            # the known default-constructed-head defect: the faithful model shows the same observations and
-            # says a placeholder head had tables chained behind it before the first failing operation
-            f1 = same and defect_at >= 0 and first_bad >= defect_at
             for m in bad:
-                if f1:
-                    sig = "default-ctor-" + ("size" if m[1] == "size" else "iter")
-                else:
-                    sig = m[1] + "-mismatch"
+                sig = m[1] + "-mismatch"
                 chk.violate(sig, "%s [%s, hash kind %d, A(%s) B(%s)]: %s" % (m[2], TYPES.get(ty), hk, ca, cb,
                                                                             per.get(m[1], "")[:200]),
                             dict(rep, first_bad_op=first_bad, monitors=mon))
@@ -288,6 +284,7 @@ def main(argv):
     chk.cov["evaluations"] = len(lines)
     chk.cov["distinct_nontrivial"] = len(nontrivial)
     chk.cov["traces_validated_against_impl"] = validated
+    chk.notes["cases_chaining_behind_a_default_constructed_head"] = ndefault
     chk.cov["rule"] = ("case = (element type, hash function, bucket count of A and B or default, operation sequence over "
                        "emplace/find/size/iterate/clear/reserve/rehash/copy/move/swap); fills stop at every chain capacity "
                        "boundary (B-1, B, B+1, 3B-1 .. 7B+1), keys are aimed at the hash (bases at the end of the table so the "
@@ -304,6 +301,5 @@ def main(argv):
         "modelled not verified: SIMD group load, allocator, element ctor/dtor, ConcurrentAdder as a counter",
     ]
     chk.assumptions = ["sequential use (quiescent points); the concurrent insert path is property C03",
-                       "positive theorem: containers constructed with an explicit bucket count (default-constructed: refuted, F1)",
                        "no size_t overflow of bucket counts"]
     chk.finish("proof")
